@@ -5,6 +5,8 @@
 //
 //	gw <tmpl>                               gwbased.Parse + String() + Compile()
 //	st <tmpl>                               httprule.Parse + VerifDump()
+//	build <tmpl>                            routing.buildPattern (reject / the runtime.Pattern's fields)
+//	route <tmpl> <path>                     PatternRouter: Watch, UpdateDesc(one GET binding tmpl), RouteHTTP(RawPath path)
 //	ga <tmpl>                               gwbased.Parse + structural export (verifx.GWSegments), for the C20→C03 adapter
 //	gtok <path> / stok <path>               the two tokenizers
 //	trie <method:tmpl,…|-> <method> <path>  NewTrie, Add of every template that parses, Find
@@ -13,8 +15,17 @@ package c20
 import (
 	"fmt"
 	"math/rand"
+	"net/http"
+	"net/url"
+	"reflect"
 	"strconv"
 	"strings"
+
+	"github.com/renbou/grpcbridge/bridgedesc"
+	"github.com/renbou/grpcbridge/grpcadapter"
+	"github.com/renbou/grpcbridge/routing"
+	"google.golang.org/grpc/codes"
+	"google.golang.org/grpc/status"
 
 	"github.com/renbou/grpcbridge/verifx"
 	"verif/harness/common"
@@ -88,6 +99,18 @@ func (Area) Exec(input string) string {
 			return "ERR"
 		}
 		return showAst(segs, verb)
+	case "build":
+		// the glue PatternRouter uses: routing.buildPattern; the pattern's fields are read by reflection
+		p, err := routing.VerifBuildPatternValue(string(common.MustUnHex(f[1])))
+		if err != nil {
+			return "reject"
+		}
+		return dumpPattern(p)
+	case "route":
+		if len(f) != 3 {
+			return "BADOP"
+		}
+		return execRoute(string(common.MustUnHex(f[1])), string(common.MustUnHex(f[2])))
 	case "gtok":
 		toks, verb := verifx.GWTokenize(string(common.MustUnHex(f[1])))
 		return hexList(toks) + " " + common.HexS(verb)
@@ -115,6 +138,57 @@ func (Area) Exec(input string) string {
 		return "found " + common.HexS(t.VerifTemplate())
 	}
 	return "BADOP"
+}
+
+// dumpPattern renders a runtime.Pattern (unexported fields ops{code,operand}, pool, vars, stacksize, tailLen, verb).
+func dumpPattern(p any) string {
+	v := reflect.ValueOf(p)
+	ops := v.FieldByName("ops")
+	os := make([]string, ops.Len())
+	for i := range os {
+		o := ops.Index(i)
+		os[i] = fmt.Sprintf("%d.%d", o.FieldByName("code").Int(), o.FieldByName("operand").Int())
+	}
+	strs := func(name string) string {
+		l := v.FieldByName(name)
+		xs := make([]string, l.Len())
+		for i := range xs {
+			xs[i] = l.Index(i).String()
+		}
+		return hexList(xs)
+	}
+	opss := "-"
+	if len(os) > 0 {
+		opss = strings.Join(os, ",")
+	}
+	return fmt.Sprintf("ok %s %s %s %d %d %s", opss, strs("pool"), strs("vars"), v.FieldByName("stacksize").Int(),
+		v.FieldByName("tailLen").Int(), common.HexS(v.FieldByName("verb").String()))
+}
+
+type okPool struct{}
+
+func (okPool) Get(string) (grpcadapter.ClientConn, bool) { return nil, true }
+
+// execRoute: a real PatternRouter with one target whose only method has the one binding GET tmpl; the request
+// target is delivered as RawPath (RouteHTTP matches on it as is).
+func execRoute(tmpl, path string) string {
+	pr := routing.NewPatternRouter(okPool{}, routing.PatternRouterOpts{})
+	w, err := pr.Watch("t")
+	if err != nil {
+		return "watcherr"
+	}
+	defer w.Close()
+	w.UpdateDesc(&bridgedesc.Target{Name: "t", Services: []bridgedesc.Service{{Name: "S", Methods: []bridgedesc.Method{
+		{RPCName: "/S/M", Bindings: []bridgedesc.Binding{{HTTPMethod: "GET", Pattern: tmpl}}},
+	}}}})
+	_, _, err = pr.RouteHTTP(&http.Request{Method: "GET", URL: &url.URL{RawPath: path}})
+	if err == nil {
+		return "found"
+	}
+	if c := status.Code(err); c != codes.Unknown {
+		return fmt.Sprintf("code:%d", int(c))
+	}
+	return "err"
 }
 
 func showPart(p verifx.GWSeg) string {
@@ -456,10 +530,19 @@ func randomPathFor(r *rand.Rand, tmpl string) string {
 func (Area) Gen(r *rand.Rand, tier string, emit func(string)) {
 	thorough := tier == "thorough"
 	count := func(k string) { genCounts[k]++ }
+	routeSeq := 0
 	parseBoth := func(kind, s string) {
 		count(kind)
 		emit("gw " + common.HexS(s))
 		emit("st " + common.HexS(s))
+		// the glue: routing.buildPattern on the same string, and a real PatternRouter probed with the path that
+		// equals the template text (what the template would match if it were taken as literals)
+		emit("build " + common.HexS(s))
+		routeSeq++
+		// (thorough: the enumerated derivations are all valid templates; every third goes through a router)
+		if strings.HasPrefix(s, "/") && !(thorough && kind == "derivation-enumerated" && routeSeq%3 != 0) {
+			emit("route " + common.HexS(s) + " " + common.HexS(s))
+		}
 		// adapter tie: the structural export of every template the real parser accepts
 		if _, err := verifx.GWParse(s); err == nil {
 			count("adapter-ast")
